@@ -11,7 +11,9 @@ use shared::triple::Triple;
 use std::collections::{BTreeSet, HashSet};
 
 #[derive(Serialize, Deserialize, Clone, Debug)]
-pub enum Op { InsertQuad(u32, u32, u32, u32), DeleteQuad(u32, u32, u32, u32), InsertTriple(u32, u32, u32), DeleteTriple(u32, u32, u32), AddTripleDb(u32, u32, u32), CreateGraph(u32), ClearGraph(u32), DropGraph(u32), Clear, Rebuild, CloneIndex, SerdeRoundTrip }
+pub enum Op { InsertQuad(u32, u32, u32, u32), DeleteQuad(u32, u32, u32, u32), InsertTriple(u32, u32, u32), DeleteTriple(u32, u32, u32), AddTripleDb(u32, u32, u32), CreateGraph(u32), ClearGraph(u32), DropGraph(u32), Clear, Rebuild, CloneIndex, SerdeRoundTrip,
+    /// fill the database statistics cache (every SELECT and the load paths do): later direct store operations leave it stale
+    Stats }
 #[derive(Serialize, Deserialize, Clone, Debug)]
 pub struct StoreCase { pub hash_seed: u64, pub ops: Vec<Op>, pub ngraphs: u32, pub probe_seed: u64 }
 pub struct C04;
@@ -22,7 +24,7 @@ fn qset(v: &[Quad]) -> (BTreeSet<Q>, bool) { let s: BTreeSet<Q> = v.iter().map(|
 impl Prop for C04 {
     type Case = StoreCase;
     fn id(&self) -> &'static str { "C04" }
-    fn expected_counters(&self) -> Vec<&'static str> { vec!["fault.index_rebuild", "probe.rebuild_with_empty_named_graph", "probe.serde_roundtrip"] }
+    fn expected_counters(&self) -> Vec<&'static str> { vec!["fault.index_rebuild", "probe.rebuild_with_empty_named_graph", "probe.serde_roundtrip", "probe.statistics_cache_filled_mid_history"] }
     fn budget(&self, tier: Tier) -> Budget { match tier { Tier::Quick => Budget { runs: 6000, wall_s: 60, recheck: 30 }, Tier::Thorough => Budget { runs: 300_000, wall_s: 1000, recheck: 100 } } }
     fn hash_seed(&self, c: &StoreCase) -> u64 { c.hash_seed }
     fn gen(&self, seed: u64, _i: u64, _t: Tier) -> StoreCase {
@@ -33,9 +35,9 @@ impl Prop for C04 {
         let mut ops = vec![];
         for _ in 0..n {
             let (s, p, o, g) = (r.below(ns) as u32, 100 + r.below(np) as u32, r.below(ns) as u32, r.below(ng as u64 + 1) as u32);
-            ops.push(match r.weighted(&[10, 2 * w_del, 2, 1, 1, w_graph, w_graph, w_graph, 1, 2, 1, 1]) {
+            ops.push(match r.weighted(&[10, 2 * w_del, 2, 1, 1, w_graph, w_graph, w_graph, 1, 2, 1, 1, 1]) {
                 0 => Op::InsertQuad(s, p, o, g), 1 => Op::DeleteQuad(s, p, o, g), 2 => Op::InsertTriple(s, p, o), 3 => Op::DeleteTriple(s, p, o), 4 => Op::AddTripleDb(s, p, o),
-                5 => Op::CreateGraph(g), 6 => Op::ClearGraph(g), 7 => Op::DropGraph(g), 8 => if r.chance(1, 6) { Op::Clear } else { Op::Rebuild }, 9 => Op::Rebuild, 10 => Op::CloneIndex, _ => Op::SerdeRoundTrip });
+                5 => Op::CreateGraph(g), 6 => Op::ClearGraph(g), 7 => Op::DropGraph(g), 8 => if r.chance(1, 6) { Op::Clear } else { Op::Rebuild }, 9 => Op::Rebuild, 10 => Op::CloneIndex, 11 => Op::SerdeRoundTrip, _ => Op::Stats });
         }
         StoreCase { hash_seed: Rng::sub(seed, "hash").next(), ops, ngraphs: ng, probe_seed: Rng::sub(seed, "probe").next() }
     }
@@ -61,6 +63,7 @@ impl Prop for C04 {
                 Op::Clear => { db.dataset_index.clear(); quads.clear(); cat.clear(); }
                 Op::Rebuild => { db.build_all_indexes(); ctx.hit("fault.index_rebuild"); if cat.iter().any(|n| !quads.iter().any(|q| q.3 == GraphId::Named(*n))) { ctx.hit("probe.rebuild_with_empty_named_graph"); } }
                 Op::CloneIndex => { db.dataset_index = db.dataset_index.clone(); }
+                Op::Stats => { let _ = db.get_or_build_stats(); ctx.hit("probe.statistics_cache_filled_mid_history"); }
                 Op::SerdeRoundTrip => { let j = serde_json::to_string(&db.dataset_index); if let Ok(j) = j { if let Ok(di) = serde_json::from_str(&j) { db.dataset_index = di; ctx.hit("probe.serde_roundtrip"); } } }
             }
             ev!(ctx.log, "{} {:?} -> {} quads {} graphs", i, op, quads.len(), cat.len());
